@@ -1039,6 +1039,38 @@ done:
     return ret_value;
 } /* ANIwriteann */
 
+/* ------------------------------- ANInewref -------------------------------
+ NAME
+        ANInewref - pick the ref for a new annotation of the given type
+
+ DESCRIPTION
+    Htagnewref() only knows the annotations that are already written to the
+    file.  An annotation that was created but not written yet exists only in
+    the annotation tree, so refs found there are skipped as well; otherwise
+    two annotations created back to back would get the same tag/ref.
+    The tree of 'type' must exist.
+
+ RETURNS
+    An unused ref, 0 if there is none
+
+--------------------------------------------------------------------------- */
+static uint16
+ANInewref(int32 file_id, filerec_t *file_rec, ann_type type, uint16 ann_tag)
+{
+    uint16 ann_ref = Htagnewref(file_id, ann_tag);
+    int32  ann_key;
+
+    while (ann_ref != 0) {
+        ann_key = AN_CREATE_KEY(type, ann_ref);
+        if (tbbtdfind(file_rec->an_tree[type], &ann_key, NULL) == NULL &&
+            HDcheck_tagref(file_id, ann_tag, ann_ref) == 0)
+            break;
+        ann_ref = (uint16)(ann_ref == MAX_REF ? 0 : ann_ref + 1);
+    }
+
+    return ann_ref;
+} /* ANInewref() */
+
 /* ------------------------------- ANIcreate -------------------------------
  NAME
         ANIcreate - create a new annotation for the specified item
@@ -1092,23 +1124,23 @@ ANIcreate(int32    file_id,  /* IN: file ID */
     switch ((ann_type)type) {
         case AN_DATA_LABEL:
             ann_tag = DFTAG_DIL;
-            ann_ref = Htagnewref(file_id, ann_tag);
+            ann_ref = ANInewref(file_id, file_rec, type, ann_tag);
             break;
         case AN_DATA_DESC:
             ann_tag = DFTAG_DIA;
-            ann_ref = Htagnewref(file_id, ann_tag);
+            ann_ref = ANInewref(file_id, file_rec, type, ann_tag);
             break;
         case AN_FILE_LABEL:
             /* for file label set elmement tag/ref to ann_tag & ref */
             ann_tag  = DFTAG_FID;
-            ann_ref  = Htagnewref(file_id, ann_tag);
+            ann_ref  = ANInewref(file_id, file_rec, type, ann_tag);
             elem_tag = ann_tag;
             elem_ref = ann_ref;
             break;
         case AN_FILE_DESC:
             /* for file desc set elmement tag/ref to ann_tag & ref */
             ann_tag  = DFTAG_FD;
-            ann_ref  = Htagnewref(file_id, ann_tag);
+            ann_ref  = ANInewref(file_id, file_rec, type, ann_tag);
             elem_tag = ann_tag;
             elem_ref = ann_ref;
             break;
@@ -1117,6 +1149,8 @@ ANIcreate(int32    file_id,  /* IN: file ID */
     }
 
     /* Check tag and ref */
+    if (!ann_ref)
+        HGOTO_ERROR(DFE_NOREF, FAIL);
     if (!elem_tag)
         HGOTO_ERROR(DFE_BADTAG, FAIL);
     if (!elem_ref)
